@@ -254,7 +254,169 @@ theorem V2c.terminates (st : V2c M O) (hc : st.closed = true) : ∃ n, (V2c.task
           exact ⟨n + 1, hn⟩
   exact this _ st hc rfl
 
+/-! ### which calls count: exactly those made before the drop -/
+
+/-- the API calls of an op list that reach the port: those before the first `drop` -/
+def Op2c.live : Op2c M O → Bool
+  | .drop => false
+  | .op _ => true
+
+def shape2c : Op2c M O → Option (Option M)
+  | .op o => opShape o
+  | .drop => none
+
+theorem V2c.task_hist (st : V2c M O) : st.task.1.base.hist = st.base.hist := by
+  simp only [V2c.task]
+  split
+  · rfl
+  · split
+    · rfl
+    · exact OutPort.task_hist st.base
+
+theorem V2c.closed_hist (st : V2c M O) (hc : st.closed = true) (ops : List (Op2c M O)) :
+    (st.run ops).base.hist = st.base.hist := by
+  induction ops generalizing st with
+  | nil => rfl
+  | cons o ops ih =>
+    simp only [V2c.run, List.foldl_cons] at ih ⊢
+    have hc' : (st.step o).closed = true := by
+      cases o with
+      | drop => rfl
+      | op o =>
+        cases o with
+        | publish m => simp [V2c.step, hc]
+        | subscribe a c => simp [V2c.step, hc]
+        | exit a => exact hc
+        | task =>
+          simp only [V2c.step, V2c.task]
+          split
+          · exact hc
+          · split <;> exact hc
+    have hh : (st.step o).base.hist = st.base.hist := by
+      cases o with
+      | drop => rfl
+      | op o =>
+        cases o with
+        | publish m => simp [V2c.step, hc]
+        | subscribe a c => simp [V2c.step, hc]
+        | exit a => rfl
+        | task => exact V2c.task_hist st
+    rw [ih _ hc', hh]
+
+theorem V2c.hist_run' (st : V2c M O) (hc : st.closed = false) (ops : List (Op2c M O)) :
+    (st.run ops).base.hist.map Cmd.data? =
+      st.base.hist.map Cmd.data? ++ (ops.takeWhile Op2c.live).filterMap shape2c := by
+  induction ops generalizing st with
+  | nil => simp [V2c.run]
+  | cons o ops ih =>
+    simp only [V2c.run, List.foldl_cons] at ih ⊢
+    cases o with
+    | drop =>
+      have := V2c.closed_hist (st.step .drop) rfl ops
+      simp only [V2c.run] at this
+      rw [this]
+      simp [V2c.step, Op2c.live]
+    | op o =>
+      have hc' : (st.step (.op o)).closed = false := by
+        cases o with
+        | publish m => simp [V2c.step, hc]
+        | subscribe a c => simp [V2c.step, hc]
+        | exit a => exact hc
+        | task =>
+          simp only [V2c.step, V2c.task]
+          split
+          · exact hc
+          · split <;> exact hc
+      rw [ih _ hc']
+      simp only [List.takeWhile_cons, Op2c.live, ↓reduceIte, List.filterMap_cons]
+      cases o with
+      | publish m => simp [V2c.step, hc, V2.publish, shape2c, opShape, Cmd.data?]
+      | subscribe a c => simp [V2c.step, hc, V2.subscribe, shape2c, opShape, Cmd.data?]
+      | exit a => simp [V2c.step, V2.step, shape2c, opShape]
+      | task => simp [V2c.step, V2c.task_hist, shape2c, opShape]
+
 /-! ## v1 -/
+
+def Op1c.live : Op1c M O → Bool
+  | .drop => false
+  | .op _ => true
+
+def pub1c : Op1c M O → Option M
+  | .op (.publish m) => some m
+  | _ => none
+
+theorem V1c.task_pubs (st : V1c M O) (i : Nat) : (st.task i).1.base.pubs = st.base.pubs := by
+  simp only [V1c.task]
+  split
+  · rfl
+  · split
+    · rfl
+    · split
+      · rfl
+      · exact (task1_frame st.base i).2.1
+
+theorem V1c.task_closed (st : V1c M O) (i : Nat) : (st.task i).1.closed = st.closed := by
+  simp only [V1c.task]
+  split
+  · rfl
+  · split
+    · rfl
+    · split <;> rfl
+
+theorem V1c.closed_pubs (st : V1c M O) (hc : st.closed = true) (ops : List (Op1c M O)) :
+    (st.run ops).base.pubs = st.base.pubs := by
+  induction ops generalizing st with
+  | nil => rfl
+  | cons o ops ih =>
+    simp only [V1c.run, List.foldl_cons] at ih ⊢
+    have hc' : (st.step o).closed = true := by
+      cases o with
+      | drop => rfl
+      | op o =>
+        cases o with
+        | publish m => simp [V1c.step, hc]
+        | subscribe a c => simp [V1c.step, hc]
+        | exit a => exact hc
+        | task i => simp only [V1c.step, V1c.task_closed]; exact hc
+    have hh : (st.step o).base.pubs = st.base.pubs := by
+      cases o with
+      | drop => rfl
+      | op o =>
+        cases o with
+        | publish m => simp [V1c.step, hc]
+        | subscribe a c => simp [V1c.step, hc]
+        | exit a => rfl
+        | task i => exact V1c.task_pubs st i
+    rw [ih _ hc', hh]
+
+theorem V1c.pubs_run' (st : V1c M O) (hc : st.closed = false) (ops : List (Op1c M O)) :
+    (st.run ops).base.pubs = st.base.pubs ++ (ops.takeWhile Op1c.live).filterMap pub1c := by
+  induction ops generalizing st with
+  | nil => simp [V1c.run]
+  | cons o ops ih =>
+    simp only [V1c.run, List.foldl_cons] at ih ⊢
+    cases o with
+    | drop =>
+      have := V1c.closed_pubs (st.step .drop) rfl ops
+      simp only [V1c.run] at this
+      rw [this]
+      simp [V1c.step, Op1c.live]
+    | op o =>
+      have hc' : (st.step (.op o)).closed = false := by
+        cases o with
+        | publish m => simp [V1c.step, hc]
+        | subscribe a c => simp [V1c.step, hc]
+        | exit a => exact hc
+        | task i => simp only [V1c.step, V1c.task_closed]; exact hc
+      rw [ih _ hc']
+      simp only [List.takeWhile_cons, Op1c.live, ↓reduceIte, List.filterMap_cons]
+      cases o with
+      | publish m =>
+        simp only [V1c.step, hc, Bool.false_eq_true, ↓reduceIte, pub1c, V1.publish]
+        split <;> simp
+      | subscribe a c => simp [V1c.step, hc, V1.subscribe, pub1c]
+      | exit a => simp [V1c.step, V1.step, pub1c]
+      | task i => simp [V1c.step, V1c.task_pubs, pub1c]
 
 theorem V1c.step_base (st : V1c M O) (o : Op1c M O) :
     (st.step o).base = st.base ∨ ∃ o', (st.step o).base = st.base.step o' := by
